@@ -26,8 +26,8 @@ def claim(i, cat, text, note, tech="bounded symbolic execution of the real go/ss
 TB = "Trusted: go/ssa lowering, symgo's instruction semantics (validated per run by native self-test of sampled path models), z3 5.1 verdicts, the stubs/assumptions listed in evidence."
 
 claim("C26", "model_checking",
-      "Decides, for all 2^192 header byte values and every maxBodyBytes, that DecodeHeader accepts exactly well-formed headers, that header encode/decode are mutually inverse and that bodyLenToInt cannot yield a negative or over-limit length. The RPC-correlation clause (PendingTable under goroutines) is not claimed.",
-      "Slice: frame headers only; correlation across timeouts/cancellation needs real goroutines. " + TB)
+      "Decides, for all 2^192 header byte values and every maxBodyBytes, that DecodeHeader accepts exactly well-formed headers, that header encode/decode are mutually inverse and that bodyLenToInt cannot yield a negative or over-limit length. Sequential slice of the correlation clause: on the real PendingTable (1 or 16 shards, three request ids with arbitrary upper 60 bits, sharing a shard or not) every sequence of 3 (thorough 4) Complete / Delete (timeout, cancel) / Store / FailAll (connection loss) operations leaves each call's channel with exactly its own response, the terminal error, or nothing - never another id's response, never two.",
+      "The concurrent part of the correlation clause (select race in Conn.Call, reader goroutine, timers) is NOT covered: the executor has no scheduler (seeded change C26 lives there and is not caught). " + TB)
 claim("C21", "model_checking",
       "Decides that routing.HashSlotForKey, hashslot.HashSlotForKey and workload.physicalHashSlotForKey agree, stay below count and depend only on (key,count), for every key up to the length bound (all byte values) and all 65536 counts; crc32 executed from the library's portable code.",
       "Keys longer than the bound are outside the claim; Node.HashSlotForKey delegates to routing.HashSlotForKey (its count selection is not encoded). " + TB)
@@ -61,8 +61,8 @@ claim("C16", "model_checking",
       "Decides monotonicity of ReadSeq, DeletedToSeq, AckSeq, UpdatedAt, ActivatedAt (except Hide) for the pure resolvers and for the real batch commands (advance read, activate, hide, upsert, ensure, CMD ack/tombstone/upsert), including all 2-step (3 thorough) command histories on one commit state; older SourceVersion writes change nothing; tombstoned rows ignore personal-state commands.",
       "Incarnation boundaries (newer SourceVersion on a fenced row, tombstone revival) assert only the documented installs (DESIGN 3). Shard-level closures that read through Pebble and the directory pagination clause are not claimed. " + TB)
 claim("C19", "other",
-      "Slice (first clause): Store.Save executed over a crash-model file system (volatile/durable content and directory entries; crash before any operation or inside a write; kill or power-loss recovery; error injection at every operation): afterwards the main path holds exactly the previous or exactly the new bytes, and Load opens only the main path.",
-      "os.* calls are modelled (no native replay possible); rename atomicity is the POSIX contract; the checksum clause (encoding/json) is not claimed. " + TB)
+      "Slice: (first clause) Store.Save executed over a crash-model file system (volatile/durable content and directory entries; crash before any operation or inside a write; kill or power-loss recovery; error injection at every operation): afterwards the main path holds exactly the previous or exactly the new bytes, and Load opens only the main path. (checksum clause, coverage only) the real checksumView of two symbolic states is equal iff every persisted scalar field is equal, so an altered field cannot keep the value the checksum is computed over.",
+      "os.* calls are modelled (no native replay possible for the Save entries); rename atomicity is the POSIX contract; the JSON text and the CRC itself (encoding/json) are not modelled. " + TB)
 claim("C20", "model_checking",
       "Decides Lookup totality, encode/decode identity (incl. migrations and phases), decoder robustness on arbitrary bytes, version discipline of every mutator, and for rebalance/add/remove plans: distinct hash slots, From = current owner, To != From, and a balanced table after applying the plan, for every assignment of the stated sizes.",
       "H <= 6 hash slots (8 thorough), slot ids 1..3 (4), <=2 migrations; add/remove from balanced tables (DESIGN 3); decoder count field restricted to small values plus representatives. " + TB)
@@ -102,20 +102,20 @@ claim("C04", "model_checking",
       "Decides that compareAuthorityID is the strict lexicographic order, that Install refuses older and conflicting authorities and closes admission before anything can fail on a newer one, that Commit is refused (no dispatch, no write) under a stale Expected, an active fence or before readiness, that appends admitted under a deposed authority never yield a receipt after a newer Install, and the reactor's append admission order.",
       "Sequential orders only (Install and Commit hold the channel mutex); hedged/deferred dispatcher variants not used; ValidateMeta clause is asserted by C06's ApplyMeta entry. " + TB)
 claim("C07", "other",
-      "Slice (layout lemmas the sequential-log behaviour rests on): order-(anti)isomorphism of the ordered integer encodings, prefix-freedom and least-upper-bound of PrefixEnd, row/index key decoders inverting their encoders, channel and table isolation of key spans over 19 key kinds, header/payload/index value round trips, values bound to their keys by the checksum, and that an appended record materialises as a valid row (known finding C07-F1 for empty payloads, repaired).",
-      "Append/truncate/trim/reopen logic, index maintenance and recoverLEO (Pebble-backed) are not claimed. CRC32C modelled as its exact GF(2)-affine map for this check. " + TB)
+      "Slice: (a) layout lemmas: order-(anti)isomorphism of the ordered integer encodings, prefix-freedom and least-upper-bound of PrefixEnd, row/index key decoders inverting their encoders, channel and table isolation of key spans over 19 key kinds, value round trips, values bound to their keys by the checksum, an appended record materialises as a valid row (C07-F1 repaired). (b) store level: the real MessageDB/ChannelLog on the in-memory engine against a reference sequential log, compared after every operation of every history of 2-3 (thorough 3-4) operations over {append 1-2, follower apply, TruncateFrom, TrimPrefixThrough, checkpoint, close+reopen} from the empty store and from a seeded log, with symbolic payload bytes on a fixed history, and with ListByClientMsgNo over logs mixing rows with and without a sender: LEO, point/forward/reverse reads, message-id, idempotency, sender and client-number indexes, checkpoint and retention state, isolation of another channel. Known finding C07-F2 (TruncateFrom after a prefix trim) isolated as its own entry.",
+      "Pebble itself (durability, crashes, compaction) is replaced by the in-memory engine overlay (validated by the repository's suites); ids, senders, client numbers and positions are choices over small sets; the general entries assume no row-removing truncation after a prefix trim (C07-F2); the compat ChannelStore layer and concurrent leases are not claimed. CRC32C modelled exactly (GF(2)-affine map) in the layout entries and as an uninterpreted step function in the store entries. " + TB)
 claim("C08", "other",
-      "Slice: idempotency filter soundness as one inductive step from an arbitrary filter state (add makes the key present, no present key disappears, saturation and overflow layer), exact in-batch duplicate detection, and the pre-storage decisions of validateAppendRow (accepted without a point read only if the filter said absent; possible hits always go to storage; strict mode always reads the id index).",
-      "Filter layers of 1-2 words (4 thorough) for the step lemmas (64/128-word layers defeat the solver), maphash uninterpreted; outcomes of durable lookups, rebuild after reopen and reclamation are not claimed. " + TB)
+      "Slice: (a) idempotency filter soundness as one inductive step from an arbitrary filter state, exact in-batch duplicate detection, the pre-storage decisions of validateAppendRow. (b) store level on the in-memory engine: from a seeded log, every history of 2 (thorough 3) steps over {append in strict or server-allocated mode with any pair and a fresh / stored / other-channel id, follower apply, truncate, trim, checkpoint, reopen, lease reclamation}: a pair or id stored at another sequence (or the id in another channel) is refused with ErrConflict, a removed pair is accepted again, after reopen every held pair is refused in both modes; multi-record batches with keys of different lengths are refused iff a pair is held or repeated and everything they stored is refused afterwards.",
+      "Filter layers of 1-2 words (4 thorough) for the step lemmas, maphash uninterpreted there; at store level the filter hash is instantiated twice (ordinary FNV: fresh keys skip the point read; constant: every validation takes the point read). Pebble replaced by the in-memory engine overlay; concurrent appenders not claimed. " + TB)
 claim("C13", "other",
-      "Slice: (a) every registered command decoder and the dispatcher on arbitrary bytes never panic and return a command or an error; (b) commands touching a hash slot the slot does not own are refused before apply, state untouched; (c) through the REAL slot state machine and meta DB on the in-memory engine: a log of 2 commands (3 for the subscriber commands, 3 in thorough) applied as one batch or split at any point yields identical results and byte-identical stores, and a restart between commands (new state machine on the same store, resume after the durable applied index) converges to the same store.",
-      "Six command kinds over a tiny id space with small integers; snapshot equivalence, longer logs and the JSON bodies of migration commands are not claimed; the engine shim has no durability. " + TB)
+      "Slice: (a) every registered command decoder and the dispatcher on arbitrary bytes never panic and return a command or an error; (b) commands touching a hash slot the slot does not own are refused before apply, state untouched; (c) through the REAL slot state machine and meta DB on the in-memory engine: logs of 2-3 (thorough 3-4) commands applied one per batch versus every split into batches yield identical results and byte-identical stores - over group-channel commands, over the seven commands sharing a person channel's runtime row / directory generation / directory task, and over the JSON-framed channel-migration task commands; a restart between commands converges to the same store. Findings: C13-F1 (repaired), C13-F2 (known: pattern stated in the harness, anything outside it is a new violation).",
+      "Tiny id spaces with small symbolic integers; snapshot equivalence, longer logs and the fenced-migration commands inside batches are not claimed; the engine shim has no durability; encoding/json as an identity codec with value-interned tokens; the migration entry ignores the slot's durable applied-index row (recovery bookkeeping). " + TB)
 claim("C18", "other",
-      "Slice: ApplyBatch replay guard (an entry at or below the applied index is answered already_applied without reaching mutation application; applied index strictly increases; saved = final = published exactly once and only after initialisation; failed Save publishes nothing), replay after restart changes nothing, and validateChanged (changed => revision +1 and valid state, rejected => state restored).",
-      "Six command classes (node upsert family); the other mutation handlers, batch-partition equivalence over general logs, Restore and the checksum value (encoding/json) are not claimed. " + TB)
+      "Slice: ApplyBatch replay guard, replay after restart, validateChanged, and batch-partition equivalence through the real ApplyBatch and all 14 mutation handlers: from a fixed valid base state with symbolic revision / applied index, a log of 2 (thorough 3) commands whose last position ranges over 32-35 command variants with symbolic fields gives identical per-command results and a field-by-field identical final state under every partition into batches; changed => revision+1; rejected / no-op commands leave the state (also the in-flight batch candidate) untouched; saved = published = returned and valid.",
+      "Fixed base state; earlier log positions are commands the base state accepts; longer logs, other base states, Restore, failed Save inside the batch entries and the checksum value (4 unconstrained bytes) are not claimed. " + TB)
 claim("C40", "other",
-      "Slice: the message-event reducer on arbitrary lane rows: applied exactly when the lane is not terminal and the event id is not a replay; applied => sequence = cursor+1; terminal events finalise the lane and nothing later changes it; replayed ids report their recorded sequence; 3-event (4 thorough) histories keep cursor = number of applied events.",
-      "encoding/json on concrete payload literals is executed exactly; the Pebble glue of AppendMessageEvent and the leader stream cache / fail-closed finish clause are not claimed. " + TB)
+      "Slice: the message-event reducer on arbitrary lane rows: applied exactly when the lane is not terminal and the event id is not a replay; applied => sequence = cursor+1; terminal events finalise the lane and nothing later changes it; replayed ids report their recorded sequence; 3-event (4 thorough) histories keep cursor = number of applied events. Fail-closed finish (enumerated over 3 cache states x 10 concrete payload literals, not symbolic): the real Node.appendMessageEventFinishLocal over the real stream cache answers ErrMessageEventStreamCacheMiss without reaching the proposer exactly when there is no open cached lane and the payload has no usable snapshot; the gate and the snapshot merge agree on what a snapshot is.",
+      "encoding/json on concrete payload literals is executed exactly; the Pebble glue of AppendMessageEvent, the finish coalescer, forwarding and arbitrary payload bytes are not claimed. " + TB)
 
 
 claim("C17", "model_checking",
@@ -124,8 +124,12 @@ claim("C17", "model_checking",
 
 
 claim("C39", "other",
-      "Slice (target-side exactly-once rule and ownership refusal only): through the real slot state machine and meta DB on the in-memory engine, a metadata write forwarded as a delta is applied exactly once when the same delta is replayed after a later delta - in a later batch (replay cache), inside one batch (pending map) and after a restart of the target (durable applied-delta record); a write applied directly and the same write applied as a delta give the same rows; ordinary writes for a hash slot the slot does not own are refused without effect.",
-      "The migration protocol across slots (outbox, forwarding, fence index, switch) is not encoded, so 'present exactly once in the target after the switch' is claimed only for the target's replay rule; 4 write kinds over a tiny id space; engine/commit shims; CRC uninterpreted. " + TB)
+      "Slice: through the real slot state machines and meta DB on the in-memory engine - target side: a delta replayed after a later delta (later batch, same batch, after restart) is applied exactly once; a write applied directly and as a delta give the same rows; a slot refuses ordinary writes for a hash slot it does not own. Source side: with 2 (thorough 3) writes accepted in the delta phase and any subset of live forwards delivered and acknowledged in any order, the durable outbox is always exactly the accepted writes not yet acknowledged; after the retry pass, fence and drain every accepted write has exactly one applied-delta record on the target, the outbox is empty and later writes are fenced.",
+      "Sequential schedules only: the asynchronous forwarder, retry timers, controller phase changes and the ownership switch are not encoded; 4 write kinds over a tiny id space; engine/commit shims; CRC uninterpreted. " + TB)
+
+claim("C02", "other",
+      "Slice: step obligations on the real MemoryChannelStore from an arbitrary store satisfying the proved build invariant - exact AppendLeader (any base, predecessor, command id, Committed), malformed appends, ReplaceRecoverySuffix (Expected perturbed in 8 fields, any KeepThrough / Committed), checkpoint: the store equals the abstract log after the step, HW <= LEO and both monotone, identities chain from zero, Durable / AlreadyDurable / Conflict exactly as specified, refused steps change nothing; the agreement lemma (equal digest at i => equal identity and content at every j <= i) over two independently built logs; the replication store adapter's result normalisation and probe-chain validation against reference predicates; follower repair never announces a committed watermark above the leader's (real repairFromFrontier + ExchangeServer over the memory store).",
+      "Logs of up to 2 (thorough 3) proposals of 1-2 records; one leader driving two different stores in one run, the goroutine scheduling of runtime.go, Pebble and crashes between recovery pages are not encoded - agreement across replicas is the lemma plus a paper induction. " + TB)
 
 def main():
     props = [json.loads(l) for l in open(os.path.join(ROOT, 'properties.jsonl'))]
